@@ -9,6 +9,8 @@ PRESET = ["strikethrough", "footnotes", "table", "speedup"]
 def directive_plugin(kind):
     from mistune.directives import (FencedDirective, RSTDirective, Admonition, TableOfContents, Include, Image, Figure)
     plugs = [Admonition(), TableOfContents(), Include(), Image(), Figure()]
+    if kind == "fenced-colon":
+        return FencedDirective(plugs, ":")          # custom fence markers (":::{note}")
     return FencedDirective(plugs) if kind == "fenced" else RSTDirective(plugs)
 
 
@@ -24,6 +26,9 @@ def make(cfg):
         renderer = RSTRenderer()
     else:
         renderer = r
+    if r == "html" and cfg.get("allow_harmful") is not None:
+        from mistune.renderers.html import HTMLRenderer
+        renderer = HTMLRenderer(escape=cfg.get("escape", True), allow_harmful_protocols=cfg["allow_harmful"])
     plugins = list(cfg.get("plugins") or [])
     if cfg.get("directives"):
         plugins.append(directive_plugin(cfg["directives"]))
@@ -49,6 +54,7 @@ def named(which="quick"):
            C("all-fenced", plugins=PLUGINS, directives="fenced"),
            C("all-rst", plugins=PLUGINS, directives="rst"),
            C("all-tochook", plugins=PLUGINS, toc_hook=True),
+           C("all-fenced-colon", plugins=PLUGINS, directives="fenced-colon"),
            C("ast-core", renderer="ast"), C("ast-all", renderer="ast", plugins=PLUGINS),
            C("markdown-core", renderer="markdown"), C("rst-core", renderer="rst")]
     if which != "quick":
